@@ -100,6 +100,12 @@ func decodeUsed(b []byte, ep int) error {
 // oracle "total": B=[input] I=[entry]
 func c01Total(c *core.Ctx, k *core.Case) {
 	b, ep := k.B[0], int(k.I[0])
+	if len(k.I) > 1 && k.I[1]&2 == 2 && c.Scratch["verbose"] == nil { // library logging at Trace level
+		c.Scratch["verbose"] = true
+		defer delete(c.Scratch, "verbose")
+		withVerboseLogging(func() { c01Total(c, k) })
+		return
+	}
 	_, err := decode3(b, ep)
 	c.Eval(1)
 	if uerr := decodeUsed(b, ep); (uerr == nil) != (err == nil) {
@@ -417,6 +423,22 @@ func init() {
 				}
 			}})
 		}
+		us = append(us, core.Unit{Name: "verbose-logging", Weight: 40, Run: func(c *core.Ctx) {
+			for mi, def := range msgs {
+				other := refcodec.RandomPlan(msgs[(mi+1)%len(msgs)], c.R, 1, 3).Bytes()
+				for i := 0; i < c.Pick(150, 3000); i++ {
+					b := refcodec.RandomPlan(def, c.R, i, c.R.Intn(6)).Bytes()
+					for d := c.R.Range(0, 2); d > 0; d-- {
+						b = mutate(c.R, def, b, c.R.Intn(10), other)
+					}
+					if i%10 == 0 {
+						b = b[:c.R.Intn(len(b)+1)]
+					}
+					ep := entryFor(def, i)
+					c.Do(&core.Case{Oracle: "total", Target: "nas.Message." + epNames[ep], B: [][]byte{b}, I: []int64{ep, 2}})
+				}
+			}
+		}})
 		us = append(us, core.Unit{Name: "headers-and-samples", Weight: 40, Run: func(c *core.Ctx) {
 			// unknown types / discriminators, short inputs
 			for b0 := 0; b0 < 256; b0++ {
